@@ -17,6 +17,20 @@ tags decoded from colours / attributes / uv / normals) and records.  Python comp
 value.  A rejection is attributed to a known defect by a predicate on the input and the operation,
 restricted to the clause that defect breaks (for the face_subset defect also to results that came
 back with vertex colours); everything else is an unexplained violation.
+
+Added by the coverage audit (the enumeration used to reach the anchored code through one entry point, one
+mask type and one fresh object per record):
+* process - Trimesh.process(validate, merge_tex, merge_norm) on a mesh and through the constructor (with and
+  without face normals handed in, as the STL loader does); it runs the merge under the cache lock, which is the
+  only place where assigned vertex normals survive a merge, so the normal channel is really exercised there;
+* masks as int8..int64 / uint8..uint64 arrays and plain lists; split engines default / scipy / networkx;
+  concatenation through a Scene; identity attributes stored as 2-D float arrays next to entries that are not
+  per-row data;
+* histories - two operations on one object with reads of derived values in between (second one recorded,
+  judged on the state re-read from the object and freshly tagged);
+* presence - an in-place operation must leave every attached channel attached (the alignment clauses are
+  vacuous for a channel that vanished); the assigned-normal clause comes last so it never hides another one.
+`--ops a,b` restricts a run to some operations (development aid, guards off).
 """
 import itertools
 import logging
@@ -35,7 +49,14 @@ PROP = "C07"
 CFG = "INIT Init\nNEXT Next\nINVARIANT Report\nINVARIANT RefSane\nCHECK_DEADLOCK FALSE\n"
 VISUALS = ("none", "face", "vertex", "texture")
 NO_OPT = {"mt": False, "mn": False, "dv": False, "du": False, "dn": False,
-          "app": False, "ow": False, "rep": False}
+          "app": False, "ow": False, "rep": False, "val": False}
+# how an integer / boolean mask is handed over (the statement says "all boolean and integer masks")
+INT_KINDS = ("int64", "int32", "uint8", "uint32", "uint64", "list", "int16", "uint16")
+BOOL_KINDS = ("bool", "list")
+ENGINES = (None, "scipy", "networkx")
+# derived values read before an operation (a stale copy would be carried across it)
+PRE_READS = ("face_normals", "triangles", "referenced_vertices", "edges_unique", "area_faces", "face_adjacency",
+             "is_winding_consistent", "vertex_faces", "face_angles")
 
 
 # ------------------------------------------------------------------ tag encodings
@@ -114,7 +135,23 @@ def decode_colors(arr, key):
 
 
 # ------------------------------------------------------------------ concrete meshes
-def build(trimesh, am, vis, hasn, pre, rs, foff=0, voff=0, made=""):
+def tag_array(tags, form):
+    """the identity attribute as the user may store it: a plain integer vector, or one column of a 2-D float array"""
+    if form == 1:
+        return np.column_stack([tags.astype(np.float64), np.full(len(tags), 0.5)])
+    return tags.astype(np.int64).copy()
+
+
+def tag_values(arr):
+    vals = np.asarray(arr)
+    if vals.size == 0:
+        return []
+    if vals.ndim > 1:
+        vals = vals.reshape(len(vals), -1)[:, 0]
+    return [int(round(float(x))) for x in vals]
+
+
+def build(trimesh, am, vis, hasn, pre, rs, foff=0, voff=0, made="", form=0):
     """abstract mesh -> Trimesh(process=False) with identity tags attached.  An abstract mesh without faces
     is made directly or (made = "masked") by masking away the only face of a mesh; one without slots is
     trimesh.Trimesh()."""
@@ -137,6 +174,18 @@ def build(trimesh, am, vis, hasn, pre, rs, foff=0, voff=0, made=""):
         if hasn:                                # the stored normals went with the face array: store them again
             m.vertex_normals = NORMS[np.array(am["nc"], dtype=np.int64)]
         return m
+    V, F = arrays(am, rs)
+    m = trimesh.Trimesh(vertices=V, faces=F, process=False)
+    if len(m.vertices) != n or np.asarray(m.faces).tolist() != F.tolist():
+        raise MachineryError("Trimesh(process=False) did not keep the input arrays")
+    attach(trimesh, m, am, vis, hasn, foff, voff, form)
+    if pre:
+        read_derived(m, vis)
+    return m
+
+
+def arrays(am, rs):
+    n = len(am["pos"])
     V = np.zeros((n, 3), dtype=np.float64)
     for s, p in enumerate(am["pos"]):
         if p == 0:
@@ -144,13 +193,15 @@ def build(trimesh, am, vis, hasn, pre, rs, foff=0, voff=0, made=""):
         else:
             # slots of one position id agree within the merge tolerance, not bit for bit
             V[s] = np.array(XYZ[p]) + (rs.uniform(-2e-9, 2e-9, 3) if rs.rand() < 0.6 else 0.0)
-    F = np.array(am["faces"], dtype=np.int64).reshape(-1, 3)
-    m = trimesh.Trimesh(vertices=V, faces=F, process=False)
-    if len(m.vertices) != n or np.asarray(m.faces).tolist() != F.tolist():
-        raise MachineryError("Trimesh(process=False) did not keep the input arrays")
-    ft = np.arange(len(F)) + foff
+    return V, np.array(am["faces"], dtype=np.int64).reshape(-1, 3)
+
+
+def attach(trimesh, m, am, vis, hasn, foff=0, voff=0, form=0):
+    """identity tags of the abstract mesh `am` on the mesh object m (fresh, or left by an earlier operation)"""
+    nf, n = len(am["faces"]), len(am["pos"])
+    ft = np.arange(nf) + foff
     vt = np.arange(n) + voff
-    if vis == "face" and len(F) == 0:
+    if vis == "face" and nf == 0:
         vis = "none"                            # no face to colour
     if vis == "face":
         m.visual.face_colors = FCOL[ft]
@@ -160,27 +211,55 @@ def build(trimesh, am, vis, hasn, pre, rs, foff=0, voff=0, made=""):
         m.visual = trimesh.visual.TextureVisuals(uv=UVS[np.array(am["uvc"], dtype=np.int64)])
     if vis != "none" and m.visual.kind != vis:
         raise MachineryError(f"could not attach {vis} visuals")
-    m.face_attributes["fid"] = ft.copy()
-    m.vertex_attributes["vid"] = vt.copy()
+    m.face_attributes["fid"] = tag_array(ft, form)
+    m.vertex_attributes["vid"] = tag_array(vt, form)
+    if form == 1:
+        # entries that are not one-row-per-element data must be left alone by every operation
+        m.face_attributes["scale"] = 2.5
+        m.face_attributes["other"] = np.arange(nf + 2)
+        m.vertex_attributes["scale"] = 2.5
+        m.vertex_attributes["other"] = np.arange(n + 2)
     if hasn:
         m.vertex_normals = NORMS[np.array(am["nc"], dtype=np.int64)]
         if m._cache["vertex_normals"] is None:
             raise MachineryError("vertex normals were not stored")
-    if pre and len(F) > 0:
-        # derived values read before the operation: a stale copy would be carried across it
-        m.face_normals
-        m.triangles
-        m.referenced_vertices
-        m.edges_unique
-        m.area_faces
-        if vis in ("none", "face", "vertex"):
-            m.visual.face_colors
-            m.visual.vertex_colors
-    return m
 
 
-def project(r, vis, hasn):
-    """a returned mesh -> abstract post-state"""
+def read_derived(m, vis):
+    if len(m.faces) == 0:
+        return
+    for name in PRE_READS:
+        getattr(m, name)
+    if vis in ("none", "face", "vertex"):
+        m.visual.face_colors
+        m.visual.vertex_colors
+
+
+def build_by_constructor(trimesh, am, vis, hasn, rs, o, k, with_face_normals, form=0):
+    """the same tagged mesh handed to the constructor with processing on (what every loader does): the
+    constructor stores visuals, normals and attributes and then calls process()"""
+    V, F = arrays(am, rs)
+    ft, vt = np.arange(len(F)), np.arange(len(V))
+    kw = {"vertices": V, "faces": F, "process": True, "validate": bool(o["val"]),
+          "merge_tex": True if o["mt"] else (None, False)[k % 2], "merge_norm": True if o["mn"] else (False, None)[k % 2],
+          "face_attributes": {"fid": tag_array(ft, form)}, "vertex_attributes": {"vid": tag_array(vt, form)}}
+    if vis == "face":
+        kw["face_colors"] = FCOL[ft]
+    elif vis == "vertex":
+        kw["vertex_colors"] = VCOL[vt]
+    elif vis == "texture":
+        kw["visual"] = trimesh.visual.TextureVisuals(uv=UVS[np.array(am["uvc"], dtype=np.int64)])
+    if hasn:
+        kw["vertex_normals"] = NORMS[np.array(am["nc"], dtype=np.int64)]
+    if with_face_normals:                       # a file format that stores them (STL)
+        kw["face_normals"] = np.array(trimesh.Trimesh(vertices=V.copy(), faces=F.copy(), process=False).face_normals)
+    return trimesh.Trimesh(**kw)
+
+
+def project(r, vis, hasn, sign_free=False):
+    """a returned mesh -> abstract post-state.  sign_free: process(validate=True) may turn an inside-out
+    body around (fix_normals -> invert), which negates the assigned vertex normals with the winding: a
+    negated normal is still the normal of its class there"""
     V = np.asarray(r.vertices, dtype=np.float64).reshape(-1, 3)
     F = np.asarray(r.faces)
     if F.size and F.dtype.kind not in "iu":
@@ -188,9 +267,9 @@ def project(r, vis, hasn):
     F = F.astype(np.int64).reshape(-1, 3)
     out = {"ppos": decode_positions(V), "faces": F.tolist(), "kind": str(r.visual.kind)}
     fa = r.face_attributes.get("fid")
-    out["fa"] = chan(None if fa is None else [int(x) for x in np.asarray(fa).reshape(-1)])
+    out["fa"] = chan(None if fa is None else tag_values(fa))
     va = r.vertex_attributes.get("vid")
-    out["va"] = chan(None if va is None else [int(x) for x in np.asarray(va).reshape(-1)])
+    out["va"] = chan(None if va is None else tag_values(va))
     out["fc"], out["vc"], out["uv"], out["vn"], out["fn"] = chan(), chan(), chan(), chan(), chan()
     out["fcn"], out["vcn"] = -1, -1
     # values trimesh derives from faces and vertices together are only read from a result whose faces
@@ -218,7 +297,11 @@ def project(r, vis, hasn):
     if hasn:
         cached = r._cache["vertex_normals"]
         if cached is not None and np.shape(cached) == V.shape:
-            out["vn"] = chan(decode_rows(cached, NORMS, 1e-12))
+            got = decode_rows(cached, NORMS, 1e-12)
+            if sign_free:
+                neg = decode_rows(-np.asarray(cached, dtype=np.float64), NORMS, 1e-12)
+                got = [g if g >= 0 else h for g, h in zip(got, neg)]
+            out["vn"] = chan(got)
     fn = np.asarray(r.face_normals, dtype=np.float64)
     fn = np.where(np.isfinite(fn), fn, 0.0)
     out["fn"] = chan([[int(round(x * 1e4)) for x in row] for row in fn.reshape(-1, 3)])
@@ -226,20 +309,134 @@ def project(r, vis, hasn):
 
 
 # ------------------------------------------------------------------ operations
-def as_mask(kind, m):
-    return np.array(m, dtype=bool) if kind == "b" else np.array(m, dtype=np.int64)
+def as_mask(kind, m, how=""):
+    """the mask as the caller hands it over: numpy array of some boolean / integer type, or a plain list"""
+    if kind == "b":
+        return [bool(x) for x in m] if how == "list" else np.array(m, dtype=bool)
+    if how == "list" and len(m) > 0:
+        return [int(x) for x in m]
+    dt = np.dtype(how) if how and how != "list" else np.dtype(np.int64)
+    if len(m) and max(m) > np.iinfo(dt).max:
+        dt = np.dtype(np.int64)
+    return np.array(m, dtype=dt)
+
+
+IN_PLACE = ("merge_vertices", "unmerge_vertices", "remove_unreferenced_vertices", "remove_duplicate_faces",
+            "remove_degenerate_faces", "remove_infinite_values", "update_faces", "update_vertices",
+            "update_vertices_inv", "process")
+
+
+def apply_in_place(m, op, o, k, mk="", mask=(), inv=(), mdt=""):
+    if op == "merge_vertices":
+        m.merge_vertices(merge_tex=True if o["mt"] else (None, False)[k % 2],
+                         merge_norm=True if o["mn"] else (False, None)[k % 2],
+                         digits_vertex=0 if o["dv"] else (None, 8, 6)[k % 3],
+                         digits_uv=1 if o["du"] else None,
+                         digits_norm=0 if o["dn"] else None)
+    elif op == "process":
+        m.process(validate=bool(o["val"]), merge_tex=True if o["mt"] else (None, False)[k % 2],
+                  merge_norm=True if o["mn"] else (False, None)[k % 2])
+    elif op == "unmerge_vertices":
+        m.unmerge_vertices()
+    elif op == "remove_unreferenced_vertices":
+        m.remove_unreferenced_vertices()
+    elif op == "remove_duplicate_faces":
+        if k % 2:
+            m.remove_duplicate_faces()
+        else:
+            m.update_faces(m.unique_faces())
+    elif op == "remove_degenerate_faces":
+        if k % 2:
+            m.remove_degenerate_faces()
+        else:
+            m.update_faces(m.nondegenerate_faces())
+    elif op == "remove_infinite_values":
+        m.remove_infinite_values()
+    elif op == "update_faces":
+        m.update_faces(as_mask(mk, mask, mdt))
+    elif op == "update_vertices":
+        m.update_vertices(as_mask(mk, mask, mdt))
+    elif op == "update_vertices_inv":
+        m.update_vertices(as_mask("i", mask, mdt), inverse=np.array(inv, dtype=np.int64))
+    else:
+        raise MachineryError("unknown operation " + op)
+
+
+def abstract_after(m, am0, vis, hasn):
+    """the abstract mesh a mesh object stands for after an earlier (unrecorded) operation: positions and faces
+    as they are, uv / normal classes handed down through the vertex tag; None when the object cannot serve
+    as a pre-state (no face left, a vertex at an unknown position, faces pointing outside, tags lost)"""
+    V = np.asarray(m.vertices, dtype=np.float64).reshape(-1, 3)
+    F = np.asarray(m.faces, dtype=np.int64).reshape(-1, 3)
+    vid = m.vertex_attributes.get("vid")
+    if len(F) == 0 or len(V) == 0 or len(F) >= MAXTAG or len(V) >= MAXTAG or F.min() < 0 or F.max() >= len(V):
+        return None
+    if vid is None or len(vid) != len(V):
+        return None
+    vid = tag_values(vid)
+    if min(vid) < 0 or max(vid) >= len(am0["pos"]):
+        return None
+    pos = decode_positions(V)
+    if -1 in pos:
+        return None
+    return {"pos": pos, "faces": F.tolist(), "uvc": [am0["uvc"][int(s)] for s in vid], "nc": [am0["nc"][int(s)] for s in vid],
+            "nf_kind": am0["nf_kind"]}
+
+
+def component_count(faces):
+    """face-connected components (through edges used exactly twice, by two faces); only to keep the split
+    records inside the scope of the reference (at most seven), never for an expected value"""
+    use = {}
+    for t, f in enumerate(faces):
+        for j in range(3):
+            use.setdefault((min(f[j], f[(j + 1) % 3]), max(f[j], f[(j + 1) % 3])), []).append(t)
+    root = list(range(len(faces)))
+
+    def find(x):
+        while root[x] != x:
+            root[x] = root[root[x]]
+            x = root[x]
+        return x
+    for ts in use.values():
+        if len(ts) == 2 and ts[0] != ts[1]:
+            root[find(ts[0])] = find(ts[1])
+    return len({find(t) for t in range(len(faces))})
+
+
+def fill_parameters(rs, am, case, rec):
+    """masks of an operation whose input is only known at run time (after an earlier operation)"""
+    nf = len(am["faces"])
+    op = case["op"]
+    if "mask" in case:                           # replay of a recorded run
+        return
+    if op == "update_faces":
+        rec["mk"], rec["mask"] = [("b", rand_bool_mask(rs, nf)), ("i", rand_index_mask(rs, nf, False)),
+                                  ("i", rand_index_mask(rs, nf, True))][case["k"] % 3]
+    elif op == "update_vertices":
+        vm = vertex_masks(rs, am)
+        rec["mk"], rec["mask"] = vm[case["k"] % len(vm)]
+    elif op == "update_vertices_inv":
+        rec["mk"] = "i"
+        rec["mask"], rec["inv"] = inverse_plan(rs, am)
+    elif op == "submesh":
+        rec["seq"] = face_sequences(rs, nf)
 
 
 def run_case(trimesh, case, rs):
     """one (mesh, operation, options): returns the record for TLC"""
     am, op, o, vis, hasn, pre = case["am"], case["op"], dict(NO_OPT, **case["o"]), case["vis"], case["hasn"], case["pre"]
+    first = case.get("first")
     rec = {"op": op, "o": o, "vis": vis, "hasn": hasn, "pre": pre, "exc": "",
            "pos": am["pos"], "faces": am["faces"], "uvc": am["uvc"], "nc": am["nc"],
            "mk": case.get("mk", ""), "mask": case.get("mask", []), "inv": case.get("inv", []),
            "seq": case.get("seq", []), "outs": [], "cat": [], "how": case.get("how", ""),
-           "k": case["k"], "nf_kind": am["nf_kind"],
+           "k": case["k"], "nf_kind": am["nf_kind"], "mdt": case.get("mdt", ""), "eng": case.get("eng", 0),
+           "first": first or {}, "am0": am if first else {}, "skipped": "",
+           "carry": not (op == "concatenate" and case.get("how") == "scene"),
            "cut": [[len(q["pos"]), len(q["faces"]), q.get("made", "")] for q in case["parts"]] if op == "concatenate" else []}
     stage = "build"
+    form = (case["k"] // 5) % 2
+    rec["form"] = form
     try:
         if op == "concatenate":
             ms, foff, voff = [], 0, 0
@@ -254,50 +451,60 @@ def run_case(trimesh, case, rs):
                 for mq in ms[1:]:
                     whole = whole + mq
                 res = [whole]
+            elif case["how"] == "scene":
+                # the meshes as the geometry of a scene (identity placements), flattened into one mesh
+                if case["k"] % 3 == 0:
+                    res = [trimesh.Scene(ms).dump(concatenate=True)]
+                elif case["k"] % 3 == 1 or len(ms) < 3:
+                    res = [trimesh.util.concatenate([trimesh.Scene(ms)])]
+                else:
+                    res = [trimesh.util.concatenate([trimesh.Scene(ms[:-1]), ms[-1]])]
             elif case["how"] == "two" and len(ms) == 2:
                 res = [trimesh.util.concatenate(ms[0], ms[1])]
             elif case["how"] == "two":
                 res = [trimesh.util.concatenate(ms[0], ms[1:])]
             else:
                 res = [trimesh.util.concatenate(ms)]
+        elif op == "process" and case["how"] in ("ctor", "ctor_fn"):
+            stage = op
+            res = [build_by_constructor(trimesh, am, vis, hasn, rs, o, case["k"], case["how"] == "ctor_fn", form)]
         else:
-            m = build(trimesh, am, vis, hasn, pre, rs)
+            if first:
+                # history: an earlier operation and reads of derived values on the same object; the recorded
+                # operation starts from whatever that left (judged on the state re-read from the object)
+                m = build(trimesh, am, vis, hasn, pre, rs, form=form)
+                try:
+                    apply_in_place(m, first["op"], dict(NO_OPT, **first["o"]), first["k"], first.get("mk", ""),
+                                   first.get("mask", []), first.get("inv", []))
+                except Exception:                # that operation on that input is a record of its own elsewhere
+                    rec["skipped"] = "first operation raised"
+                    return rec
+                am = abstract_after(m, am, vis, hasn)
+                if am is None:
+                    rec["skipped"] = "first operation left no usable mesh"
+                    return rec
+                if op == "split" and component_count(am["faces"]) > 7:
+                    rec["skipped"] = "more than seven components to split"
+                    return rec
+                attach(trimesh, m, am, vis, hasn, form=form)
+                read_derived(m, vis)
+                rec.update(pos=am["pos"], faces=am["faces"], uvc=am["uvc"], nc=am["nc"])
+                fill_parameters(rs, am, case, rec)
+            else:
+                m = build(trimesh, am, vis, hasn, pre, rs, form=form)
             stage = op
             res = [m]
-            if op == "merge_vertices":
-                m.merge_vertices(merge_tex=True if o["mt"] else (None, False)[case["k"] % 2],
-                                 merge_norm=True if o["mn"] else (False, None)[case["k"] % 2],
-                                 digits_vertex=0 if o["dv"] else (None, 8, 6)[case["k"] % 3],
-                                 digits_uv=1 if o["du"] else None,
-                                 digits_norm=0 if o["dn"] else None)
-            elif op == "unmerge_vertices":
-                m.unmerge_vertices()
-            elif op == "remove_unreferenced_vertices":
-                m.remove_unreferenced_vertices()
-            elif op == "remove_duplicate_faces":
-                if case["k"] % 2:
-                    m.remove_duplicate_faces()
-                else:
-                    m.update_faces(m.unique_faces())
-            elif op == "remove_degenerate_faces":
-                if case["k"] % 2:
-                    m.remove_degenerate_faces()
-                else:
-                    m.update_faces(m.nondegenerate_faces())
-            elif op == "remove_infinite_values":
-                m.remove_infinite_values()
-            elif op == "update_faces":
-                m.update_faces(as_mask(rec["mk"], rec["mask"]))
-            elif op == "update_vertices":
-                m.update_vertices(as_mask(rec["mk"], rec["mask"]))
-            elif op == "update_vertices_inv":
-                m.update_vertices(np.array(rec["mask"], dtype=np.int64), inverse=np.array(rec["inv"], dtype=np.int64))
+            if op in IN_PLACE:
+                apply_in_place(m, op, o, case["k"], rec["mk"], rec["mask"], rec["inv"], rec["mdt"])
             elif op == "submesh":
-                fs = [as_mask(e["k"], e["m"]) if (e["k"] == "b" or case["k"] % 2) else list(e["m"]) for e in rec["seq"]]
+                sdt = ("int64", "int32", "uint32", "uint8")[(case["k"] // 2) % 4]
+                fs = [as_mask(e["k"], e["m"], sdt if e["k"] == "i" else "") if (e["k"] == "b" or case["k"] % 2) else list(e["m"])
+                      for e in rec["seq"]]
                 got = m.submesh(fs, append=o["app"], only_watertight=o["ow"], repair=o["rep"])
                 res = [got] if o["app"] and not isinstance(got, (list, np.ndarray)) else list(got)
             elif op == "split":
-                res = list(m.split(only_watertight=o["ow"], repair=o["rep"]))
+                kw = {"engine": ENGINES[rec["eng"]]} if rec["eng"] else {}
+                res = list(m.split(only_watertight=o["ow"], repair=o["rep"], **kw))
                 if not o["ow"] and not o["rep"] and len(res) > 0:
                     stage = "concatenate_parts"
                     whole = trimesh.util.concatenate(res)
@@ -306,7 +513,8 @@ def run_case(trimesh, case, rs):
             else:
                 raise MachineryError("unknown operation " + op)
         stage = "project"
-        rec["outs"] = [project(r, vis, hasn) for r in res]
+        # (a Scene concatenates copies of its geometry: which of them still carry assigned normals is C17's question)
+        rec["outs"] = [project(r, vis, hasn and rec["carry"], sign_free=(op == "process" and bool(o["val"]))) for r in res]
     except MachineryError:
         raise
     except BaseException as e:  # noqa
@@ -524,6 +732,16 @@ def adder(am, k):
         vis = VISUALS[j % 4] if op != "merge_vertices" else ("texture", "texture", "vertex", "none", "face")[j % 5]
         case = {"am": am, "op": op, "o": o or {}, "vis": vis, "hasn": (j // 4) % 2 == 0, "pre": (j // 2) % 3 == 0, "k": j}
         case.update(kw)
+        if op in ("update_faces", "update_vertices", "update_vertices_inv") and "first" not in case:
+            # every second mask arrives as int64 / bool array, the others as another integer type or a list
+            kinds = BOOL_KINDS if case.get("mk") == "b" else INT_KINDS
+            case["mdt"] = kinds[0] if (j // 3) % 2 == 0 else kinds[1 + (j // 6) % (len(kinds) - 1)]
+        if op == "split":
+            case["eng"] = (j // 2) % len(ENGINES)
+        if op == "process" and "first" not in case:
+            case["how"] = ("call", "ctor", "call", "ctor_fn")[(j // 3) % 4]
+            if case["how"] != "call":
+                case["pre"] = False
         runs.append(case)
 
     return runs, add, state
@@ -548,7 +766,49 @@ def plan_big(rs, k, am):
     add("update_vertices_inv", mk="i", mask=mask, inv=inv)
     add("submesh", {"app": True}, seq=face_sequences(rs, nf)[:2])
     add("submesh", {"app": False}, seq=face_sequences(rs, nf)[:2])
+    add("process", {"val": False, "mt": bool(rs.rand() < 0.5), "mn": bool(rs.rand() < 0.5)})
+    add("process", {"val": True, "mt": bool(rs.rand() < 0.5), "mn": bool(rs.rand() < 0.5)})
+    history_runs(rs, am, add, 2, big=True)
     return runs
+
+
+# weighted towards first operations that change the topology and second operations that consume derived values
+# (face adjacency, triangles, areas, normals) an earlier operation may have left behind
+FIRST_OPS = ("merge_vertices", "merge_vertices", "merge_vertices", "process", "process", "process", "update_faces",
+             "update_faces", "remove_unreferenced_vertices", "remove_duplicate_faces", "remove_degenerate_faces",
+             "remove_infinite_values", "update_vertices", "unmerge_vertices")
+SECOND_OPS = ("split", "split", "split", "process", "process", "submesh", "submesh", "merge_vertices", "update_faces",
+              "update_vertices", "unmerge_vertices", "update_vertices_inv", "remove_unreferenced_vertices",
+              "remove_duplicate_faces", "remove_degenerate_faces", "remove_degenerate_faces")
+
+
+def history_runs(rs, am, add, count, big=False):
+    """two operations on one object with reads of derived values in between; the second one is recorded"""
+    nf = len(am["faces"])
+    for _ in range(count):
+        f = FIRST_OPS[rs.randint(len(FIRST_OPS) - (1 if big else 0))]
+        first = {"op": f, "o": {}, "k": int(rs.randint(6))}
+        if f == "merge_vertices":
+            first["o"] = {"mt": bool(rs.rand() < 0.5), "mn": bool(rs.rand() < 0.5), "dv": bool(rs.rand() < 0.2)}
+        elif f == "process":
+            first["o"] = {"val": bool(rs.rand() < 0.5), "mt": bool(rs.rand() < 0.5), "mn": bool(rs.rand() < 0.5)}
+        elif f == "update_faces":
+            keep = rand_bool_mask(rs, nf)
+            keep[rs.randint(nf)] = 1
+            first.update(mk="b", mask=keep) if rs.rand() < 0.5 else first.update(mk="i", mask=rand_index_mask(rs, nf, True))
+        elif f == "update_vertices":
+            first["mk"], first["mask"] = vertex_masks(rs, am)[0]
+        s_op = SECOND_OPS[rs.randint(len(SECOND_OPS))]
+        o = {}
+        if s_op == "merge_vertices":
+            o = {"mt": bool(rs.rand() < 0.5), "mn": bool(rs.rand() < 0.5), "dv": bool(rs.rand() < 0.2)}
+        elif s_op == "process":
+            o = {"val": bool(rs.rand() < 0.5), "mt": bool(rs.rand() < 0.5), "mn": bool(rs.rand() < 0.5)}
+        elif s_op == "submesh":
+            o = {"app": bool(rs.rand() < 0.5), "ow": False, "rep": False}
+        elif s_op == "split":
+            o = {"ow": False, "rep": False}
+        add(s_op, o, first=first, how="call")
 
 
 def plan_for(rs, k, am, partner, tier):
@@ -596,6 +856,12 @@ def plan_for(rs, k, am, partner, tier):
         add("split", {"ow": True, "rep": False})
     if rs.rand() < 0.3 and not light:
         add("split", {"ow": False, "rep": True})
+    # the constructor's own path: process() = drop non-finite, merge; with validate also repeated / degenerate faces
+    for val, (mt, mn) in zip((False, True, True, False), ((False, False), (False, True), (True, False), (True, True))):
+        if take(4):
+            add("process", {"val": val, "mt": mt, "mn": mn})
+    if not light:
+        history_runs(rs, am, add, 4)
     # concatenation: the record carries the inputs stacked into one original
     if take():
         runs.append(concat_case(state, [am, partner]))
@@ -623,7 +889,7 @@ def concat_case(state, parts):
         for key in ("pos", "uvc", "nc"):
             both[key] = both[key] + q[key]
     return {"am": both, "op": "concatenate", "o": {}, "vis": VISUALS[j % 4], "hasn": (j // 4) % 2 == 0,
-            "pre": (j // 2) % 3 == 0, "k": j, "parts": list(parts), "how": ("list", "add", "two")[j % 3]}
+            "pre": (j // 2) % 3 == 0, "k": j, "parts": list(parts), "how": ("list", "add", "two", "scene")[j % 4]}
 
 
 def work_items(tier):
@@ -671,15 +937,45 @@ def deviation_of(c, clause):
     if c["op"] in ("submesh", "split") and c["vis"] == "face" and clause == "face_color" \
             and c["outs"] and all(o["kind"] == "vertex" for o in c["outs"]):
         return "FaceSubsetTurnsFaceColorsIntoVertexColors"
-    if c["op"] == "split" and len(c["faces"]) >= 2 and clause == "relative_order":
+    if c["op"] == "split" and len(c["faces"]) >= 2 and clause == "relative_order" and ENGINES[c["eng"]] != "networkx":
         # connected_components groups the face labels with numpy's default sort, which is not stable
         return "SplitScramblesFaceOrderInsideParts"
     if c["op"] == "remove_infinite_values" and dropped_referenced(c) \
             and clause in ("surviving_face_set", "faces_index_existing_vertices"):
         return "RemoveInfiniteValuesKeepsDanglingFaces"
+    if c["op"] == "update_vertices" and c["mk"] == "i" and c["mdt"].startswith("uint") \
+            and clause != "stored_vertex_normals_dropped":
+        # only signed integer masks get the faces re-indexed (mask.dtype.kind == "i")
+        return "UnsignedVertexMaskLeavesFacesUnreindexed"
     if c["op"] == "update_vertices" and dropped_referenced(c) \
             and clause in ("surviving_face_set", "faces_index_existing_vertices"):
         return "UpdateVerticesKeepsDanglingFaces"
+    if c["op"] == "process" and c["o"]["val"] and (c["pre"] or c["first"] or c["how"] == "ctor_fn") \
+            and clause in ("face_normal", "raised_process:IndexError", "raised_process:ValueError",
+                           "raised_project:IndexError", "raised_project:ValueError"):
+        # validation masks and reverses faces while the cache is locked: values computed (or handed in) for
+        # the faces before are used and kept
+        return "ProcessValidateEditsFacesUnderCacheLock"
+    if c["op"] == "split" and ENGINES[c["eng"]] == "networkx" and clause == "relative_order":
+        # the networkx engine returns every component in the iteration order of a Python set
+        return "NetworkxComponentsUnordered"
+    if c["op"] == "concatenate" and c["how"] == "add" and c["vis"] == "face" and clause == "visual_data_dropped" \
+            and len(c["cut"]) > 2 and c["cut"][0][1] == 0 and c["cut"][1][1] == 0:
+        # (a + b) without any face has face colours of shape (0, 5) (to_rgba pads an empty (0, 4) array), so
+        # adding a coloured mesh to it fails inside the visuals and the result falls back to default colours
+        return "EmptyFaceColorsGrowFifthColumn"
+    if c["op"] == "process" and c["o"]["val"] and c["hasn"] and c["outs"] and c["outs"][0]["faces"] != c["faces"] \
+            and (clause == "stored_vertex_normals_dropped" or
+                 (not c["o"]["mn"] and clause in ("vertex_attribute_at_corner", "vertex_color_at_corner",
+                                                  "texture_uv_at_corner", "vertex_data_from_other_position"))):
+        # validation masks / reverses faces before the cache lock: the assigned normals are gone before the merge,
+        # which then also merges vertices that merge_norm=False should have kept apart
+        return "StoredVertexNormalsDiscardedWhenFacesChange"
+    if clause == "stored_vertex_normals_dropped" and c["hasn"] and c["op"] in IN_PLACE and c["outs"] \
+            and (c["outs"][0]["faces"] != c["faces"] or c["op"] == "unmerge_vertices") and c["op"] != "process":
+        # assigned vertex normals live in the mesh cache: any change of the face array discards them
+        # (process() runs under the cache lock and keeps them)
+        return "StoredVertexNormalsDiscardedWhenFacesChange"
     return None
 
 
@@ -691,7 +987,10 @@ def replay_cases(path):
         d = v["detail"]
         am = {"pos": d["pos"], "faces": d["faces"], "uvc": d["uvc"], "nc": d["nc"], "nf_kind": d["nf_kind"]}
         case = {"am": am, "op": d["op"], "o": d["o"], "vis": d["vis"], "hasn": d["hasn"], "pre": d["pre"], "k": d["k"],
-                "mk": d["mk"], "mask": d["mask"], "inv": d["inv"], "seq": d["seq"], "how": d["how"], "family": "replay"}
+                "mk": d["mk"], "mask": d["mask"], "inv": d["inv"], "seq": d["seq"], "how": d["how"], "family": "replay",
+                "mdt": d.get("mdt", ""), "eng": d.get("eng", 0)}
+        if d.get("first"):
+            case["first"], case["am"] = d["first"], d["am0"]
         if d["op"] == "concatenate":
             parts, v0, f0 = [], 0, 0
             for nq, nfq, made in d["cut"]:
@@ -730,6 +1029,25 @@ def input_stats(cases):
     return st
 
 
+ENTRY_MUST = ("process:call", "process:ctor", "process:ctor_fn", "update_faces:uint8", "update_faces:list",
+              "update_vertices:uint32", "update_vertices:uint64", "update_vertices:int32", "update_vertices:list",
+              "update_vertices_inv:uint32", "split:scipy", "split:networkx", "concatenate:scene", "concatenate:add",
+              "second:process", "second:merge_vertices", "second:split", "first:update_faces", "first:process")
+
+
+def entry_keys(c):
+    out = []
+    if c["op"] in ("process", "concatenate"):
+        out.append(f"{c['op']}:{c['how']}")
+    if c["mdt"]:
+        out.append(f"{c['op']}:{c['mdt']}")
+    if c["op"] == "split":
+        out.append(f"split:{ENGINES[c['eng']] or 'default'}")
+    if c["first"]:
+        out += [f"first:{c['first']['op']}", f"second:{c['op']}"]
+    return out
+
+
 def check_clause_names():
     text = open(os.path.join(SPEC_DIR, "Reindex.tla")).read()
     text = text[text.index("Clause(c) =="):]
@@ -749,6 +1067,11 @@ def main(argv):
         fam = {"replay": len(cases)}
     else:
         cases, fam = work_items(tier)
+    if "--ops" in argv:
+        # development aid: only these operations (the emptiness guards are off, as for a replay)
+        want = set(argv[argv.index("--ops") + 1].split(","))
+        cases = [c for c in cases if c["op"] in want]
+        replay = True
     if len(cases) < (1 if replay else 5000):
         raise MachineryError("too few cases enumerated")
     items = list(enumerate(cases))
@@ -758,18 +1081,27 @@ def main(argv):
     os.environ.setdefault("JAVA_TOOL_OPTIONS", "-Xmx2500m")
     states, wall, total, nrej = 0, 0.0, 0, 0
     byop, byvis, byclause, bydev, raised, unattributed = {}, {}, {}, {}, {}, {}
-    stats, samples = {}, []
+    stats, samples, skipped = {}, [], {}
+    entry = {}                                   # how the anchored code was reached (entry point / argument kind)
     exercised = {"faces_dropped": 0, "vertices_merged": 0, "several_parts": 0, "parts_dropped_not_watertight": 0,
                  "face_color_channel": 0, "vertex_color_channel": 0, "uv_channel": 0, "vertex_normal_channel": 0,
                  "face_attribute_channel": 0, "vertex_attribute_channel": 0, "hole_filled": 0,
-                 "meshes_of_more_than_16_faces": 0}
+                 "meshes_of_more_than_16_faces": 0, "process_validate_dropped_faces": 0,
+                 "process_merged_with_stored_normals": 0, "process_after_reads": 0,
+                 "normals_kept_across_changed_faces": 0, "history_second_operation": 0, "unsigned_vertex_mask": 0,
+                 "networkx_split_several_parts": 0, "scene_concatenation": 0, "two_dimensional_float_attributes": 0}
     for r0 in range(0, len(items), round_size):
         part = items[r0:r0 + round_size]
         res = pmap(gen_records, part, chunk=max(40, min(600, len(part) // 96 + 1)))
         recs = [c for r in res for c in r]
         if len(recs) != len(part):
             raise MachineryError("lost records")
-        slim = [{k: v for k, v in c.items() if k not in ("pre", "how", "k", "nf_kind", "cut")} for c in recs]
+        for c in recs:
+            if c["skipped"]:
+                skipped[c["skipped"]] = skipped.get(c["skipped"], 0) + 1
+        recs = [c for c in recs if not c["skipped"]]
+        slim = [{k: v for k, v in c.items() if k not in ("pre", "how", "k", "nf_kind", "cut", "mdt", "eng", "first", "am0",
+                                                        "skipped", "form")} for c in recs]
         rejects, st, w = tlc.validate_batches("c07", "Reindex", slim, CFG, timeout=2400)
         states += st
         wall += w
@@ -790,6 +1122,8 @@ def main(argv):
         for c in recs:
             byop[c["op"]] = byop.get(c["op"], 0) + 1
             byvis[c["vis"]] = byvis.get(c["vis"], 0) + 1
+            for key in entry_keys(c):
+                entry[key] = entry.get(key, 0) + 1
             if c["exc"]:
                 raised[c["exc"]] = raised.get(c["exc"], 0) + 1
                 continue
@@ -802,6 +1136,18 @@ def main(argv):
             exercised["parts_dropped_not_watertight"] += bool(c["o"]["ow"] and not c["o"]["app"] and c["op"] == "split" and not outs)
             exercised["meshes_of_more_than_16_faces"] += len(c["faces"]) > 16
             exercised["hole_filled"] += c["op"] == "split" and nf_out > len(c["faces"])
+            vn_kept = bool(outs) and outs[0]["vn"]["has"] and len(outs[0]["vn"]["v"]) > 0
+            if c["op"] == "process":
+                exercised["process_validate_dropped_faces"] += bool(c["o"]["val"]) and nf_out < len(c["faces"])
+                exercised["process_merged_with_stored_normals"] += vn_kept and len(outs[0]["ppos"]) < len(c["pos"])
+                exercised["process_after_reads"] += bool(c["pre"] or c["first"])
+            exercised["normals_kept_across_changed_faces"] += vn_kept and c["op"] in IN_PLACE and outs[0]["faces"] != c["faces"]
+            exercised["history_second_operation"] += bool(c["first"])
+            exercised["unsigned_vertex_mask"] += c["op"] == "update_vertices" and c["mdt"].startswith("uint")
+            exercised["networkx_split_several_parts"] += c["op"] == "split" and ENGINES[c["eng"]] == "networkx" and len(outs) > 1
+            exercised["scene_concatenation"] += c["op"] == "concatenate" and c["how"] == "scene"
+            exercised["two_dimensional_float_attributes"] += c["form"] == 1 and c["op"] in IN_PLACE and bool(outs) \
+                and outs[0]["fa"]["has"] and len(outs[0]["fa"]["v"]) > 0
             for name, key in (("face_color_channel", "fc"), ("vertex_color_channel", "vc"), ("uv_channel", "uv"),
                               ("vertex_normal_channel", "vn"), ("face_attribute_channel", "fa"),
                               ("vertex_attribute_channel", "va")):
@@ -813,8 +1159,16 @@ def main(argv):
     if not replay and (min(exercised["faces_dropped"], exercised["vertices_merged"], exercised["several_parts"],
            exercised["face_color_channel"], exercised["vertex_color_channel"], exercised["uv_channel"],
            exercised["vertex_normal_channel"], exercised["face_attribute_channel"],
-           exercised["vertex_attribute_channel"], exercised["meshes_of_more_than_16_faces"]) < 50 or min(stats.values()) < 20 or len(byop) < 12):
+           exercised["vertex_attribute_channel"], exercised["meshes_of_more_than_16_faces"]) < 50 or min(stats.values()) < 20 or len(byop) < 13):
         raise MachineryError(f"enumeration nearly empty: {exercised} {stats} {byop}")
+    # the families added by the coverage audit (process / constructor, histories, mask kinds, engines, scenes)
+    thin = {k: exercised[k] for k in ("process_validate_dropped_faces", "process_merged_with_stored_normals",
+                                      "process_after_reads", "history_second_operation", "unsigned_vertex_mask",
+                                      "networkx_split_several_parts", "scene_concatenation",
+                                      "two_dimensional_float_attributes") if exercised[k] < 40}
+    if not replay and (thin or byop.get("process", 0) < 500 or sum(skipped.values()) > 0.6 * max(1, exercised["history_second_operation"])
+                       or min(entry.get(k, 0) for k in ENTRY_MUST) < 25):
+        raise MachineryError(f"an audited family is nearly empty: {thin} skipped={skipped} entry={entry}")
     cov = {
         "states": states, "transitions": states,
         "traces_validated_against_impl": total,
@@ -823,6 +1177,8 @@ def main(argv):
         "records_per_visual": byvis,
         "inputs": stats,
         "exercised": exercised,
+        "records_per_entry": entry,
+        "history_cases_skipped": skipped,
         "exceptions_observed": raised,
         "rejected": nrej,
         "rejected_per_clause": byclause,
@@ -841,7 +1197,15 @@ def main(argv):
         "17..22 faces over <= 25 slots (numpy sorts change algorithm with the array length)",
         "slots of one position id differ by < 2e-9 (inside tol.merge); quarter-unit twins merge only at digits_vertex=0",
         "option values: digits_vertex in {None, 8, 6, 0}, digits_uv in {None, 1}, digits_norm in {None, 0}; "
-        "merge_tex / merge_norm in {None, False, True}; only_watertight, append, repair in {False, True}",
+        "merge_tex / merge_norm in {None, False, True}; only_watertight, append, repair in {False, True}; "
+        "process(validate in {False, True}) called on a mesh or reached through the constructor (with and without "
+        "face normals handed in); masks as bool / int8..int64 / uint8..uint64 arrays and plain lists; "
+        "split engines default / scipy / networkx; concatenation through +, util.concatenate and a Scene",
+        "histories: derived values read before the operation; two operations on one object with reads between "
+        "(the second is judged on the state re-read from the object and freshly tagged)",
+        "presence: in-place operations must keep attached channels (attributes, colours, uv, assigned vertex "
+        "normals); submesh / split / concatenate are only required to keep the visual channel (and concatenate "
+        "the assigned vertex normals) - attributes and vertex normals they do not copy are not demanded",
         "not constrained: unreferenced vertices after merge / face masking / submesh, the representative of a merged "
         "group, faces with a non-finite corner under remove_degenerate_faces, attributes and normals an operation "
         "drops, faces appended by hole filling, corner order inside a face beyond its cyclic order, empty integer "
